@@ -36,6 +36,7 @@ type Obligation struct {
 	Pair       *Obligation // cover pairs: this cover only counts when Pair is satisfiable
 	Soft       bool        // a cover that is only the reference of a pair
 	Confirm    string      // thorough tier: confirmed | unconfirmed | CONTRADICTED ...
+	Rets       []Val       // post obligations: the values being returned
 }
 
 type Exec struct {
@@ -46,6 +47,7 @@ type Exec struct {
 
 	obls     []*Obligation
 	callCovers map[string]bool
+	curRets    []Val // values being returned while post obligations are generated
 	notes    map[string]bool
 	discover bool
 	wlogs    []*writeLog
@@ -169,7 +171,7 @@ func (ex *Exec) addObl(fr *Frame, kind string, pos token.Pos, pc, goal *Term, de
 	if !pos.IsValid() && fr != nil {
 		pos = fr.callPos
 	}
-	ex.obls = append(ex.obls, &Obligation{Name: name, Fn: ex.P.relName(ex.root), Kind: kind, Pos: ex.posOf(pos), Desc: desc, PC: pc, Goal: goal, Tags: tags, Clause: cl})
+	ex.obls = append(ex.obls, &Obligation{Name: name, Fn: ex.P.relName(ex.root), Kind: kind, Pos: ex.posOf(pos), Desc: desc, PC: pc, Goal: goal, Tags: tags, Clause: cl, Rets: ex.curRets})
 }
 
 func (ex *Exec) safety(fr *Frame, kind string, pos token.Pos, pc, goal *Term, desc string) {
